@@ -127,7 +127,7 @@ PROPS = {
             'assumptions': ['distinct voters hold at most the total power (C18_voters_distinct_one_report_each + staking: operator addresses are unique)',
                             'PowerDiff\'s float64 additions are exact: every partial sum is an integer below 2^34 (both signer sets sum to at most 2^32-1: C09)']},
     'C05': {'gen': ['gen_iterfacts.py'],
-            'suites': [{'name': 'blocks', 'quick': '-n 20 -ops 80 -hostile', 'thorough': '-n 150 -ops 150 -hostile', 'shards': {'quick': 4, 'thorough': 16}},
+            'suites': [{'name': 'blocks', 'quick': '-n 6 -ops 60 -hostile', 'thorough': '-n 60 -ops 150 -hostile', 'shards': {'quick': 4, 'thorough': 16}},
                        {'name': 'votes', 'quick': '-n 200 -ops 70', 'thorough': '-n 2000 -ops 150', 'shards': {'quick': 2, 'thorough': 8}},
                        {'name': 'oracle', 'quick': '-n 200 -ops 80', 'thorough': '-n 2000 -ops 160', 'shards': {'quick': 2, 'thorough': 8}}],
             'trusted_base': [
